@@ -61,7 +61,7 @@ V: List[Tuple[str, str, str, str, Any, Any, Optional[str]]] = [
     ("C06", "metadata pop out of finally", "breaking", S + "component.py", "        try:\n            yield\n        finally:\n            self._metadata_stack.pop()", "        yield\n        self._metadata_stack.pop()", "S2a"),
     ("C06", "new per-render global without release", "breaking", S + "perfutil/component.py", ("component_renderer_cache: Dict[str, Tuple[ComponentRenderer, str]] = {}\n", "    component_renderer_cache[render_id] = (renderer, component_name)\n"), ("component_renderer_cache: Dict[str, Tuple[ComponentRenderer, str]] = {}\n_dbg_seen: Dict[str, str] = {}\n", "    component_renderer_cache[render_id] = (renderer, component_name)\n    _dbg_seen[render_id] = component_name\n"), "S0"),
     ("C06", "exception swallowed in _render", "breaking", S + "component.py", "            except Exception as err:\n                raise err from None", "            except Exception as err:\n                return \"\"", "S3"),
-    ("C06", "payload split without str()", "breaking", S + "util/exception.py", "orig_msg = str(err.args[0]).split(\"\\n\", 1)[-1]", "orig_msg = err.args[0].split(\"\\n\", 1)[-1]", "S3"),
+    ("C06", "payload used without str()", "breaking", S + "util/exception.py", "            orig_msg = str(err.args[0])\n", "            orig_msg = err.args[0]\n", "S3"),
     ("C06", "normal-path release made conditional", "breaking", S + "component.py", "            component_context_cache.pop(render_id, None)  # type: ignore[arg-type]\n            unregister_provide_reference(render_id)  # type: ignore[arg-type]", "            if html:\n                component_context_cache.pop(render_id, None)  # type: ignore[arg-type]\n            unregister_provide_reference(render_id)  # type: ignore[arg-type]", "S1d"),
     ("C06", "two releases swapped", "preserving", S + "component.py", "            component_context_cache.pop(render_id, None)\n            unregister_provide_reference(render_id)\n            raise", "            unregister_provide_reference(render_id)\n            component_context_cache.pop(render_id, None)\n            raise", None),
     # ---- C07
